@@ -85,7 +85,9 @@ def make_case(family, n, seed):
     elif family == "truncated-cube":
         N, E = np.array(CUBE + OCTA, float), np.array([1.0] * 6 + [nrng.uniform(1.05, 1.6)] * 8)
     elif family == "cuboctahedron":
-        N, E = np.array(CUBE + OCTA, float), np.array([1.0] * 6 + [2 / s3] * 8)
+        # the ratio 2/sqrt(3) exactly, or typed with 10 / 12 decimals (vertices coincide to 1e-10 / 1e-12 of the size of the shape)
+        ratio = [2 / s3, round(2 / s3, 10), 2 / s3, round(2 / s3, 12)][(seed // 2) % 4]
+        N, E = np.array(CUBE + OCTA, float), np.array([1.0] * 6 + [ratio] * 8)
     elif family == "cube-touching-octa":
         N, E = np.array(CUBE + OCTA, float), np.array([1.0] * 6 + [s3] * 8)
     elif family == "rhombic-dodecahedron":
@@ -103,6 +105,29 @@ def make_case(family, n, seed):
         top = [[0, math.sin(d), math.cos(d)], [0, -math.sin(d), math.cos(d)]]
         N = np.array([[1, 0, 0], [-1, 0, 0], [0, 1, 0], [0, -1, 0]] + top + [[-a for a in t] for t in top], float)
         E = np.ones(8)
+    elif family == "near-degenerate":
+        # FIXED inputs (recorded findings): shapes whose vertices almost coincide (split by 1e-9..1e-5 of the size of the shape)
+        if n % 2 == 0:
+            N, E = np.array(CUBE + OCTA, float), np.array([1.0] * 6 + [1.1547] * 8)            # cuboctahedron with 2/sqrt(3) typed to four decimals
+        else:
+            N, E = np.array(CUBE + OCTA, float), np.array([1.0] * 6 + [s3 * (1 - 1e-6)] * 8)   # corner facets that only just cut in
+        N = N / np.linalg.norm(N, axis=1)[:, None]
+        return N, E
+    elif family == "repeated-facets":
+        # the same direction listed more than once: with different energies only the lowest one bounds the shape, with equal energies
+        # the second copy adds nothing (a facet list merged from two sources)
+        base = [("cube", CUBE, [1.0] * 6), ("truncated-cube", CUBE + OCTA, [1.0] * 6 + [1.5] * 8)][n % 2]
+        N, E = np.array(base[1], float), np.array(base[2], float)
+        pick = [0, 1] if base[0] == "cube" else [6, 13]      # a centrosymmetric pair
+        lower = [0.8, 1.0, 1.0][seed % 3] if base[0] == "cube" else [1.3, 1.5, 1.5][seed % 3]
+        N = np.vstack([N, N[pick]])
+        E = np.concatenate([E, [lower, lower]])
+        if seed % 3 == 2:                                     # the LOWER energy listed first
+            N, E = np.vstack([N[-2:], N[:-2]]), np.concatenate([[0.8 if base[0] == "cube" else 1.3] * 2, E[:-2]])
+        N = N / np.linalg.norm(N, axis=1)[:, None]
+        if (seed // 3) % 2 == 1:
+            N = N @ rotation(nrng).T
+        return N, E
     elif family == "generic-vicinal":
         N = nrng.normal(size=(6, 3))
         N = N / np.linalg.norm(N, axis=1)[:, None]
@@ -223,7 +248,7 @@ def judge(family, n, seed, construct=None):
 
 
 FAMILIES = ["generic", "cube", "box", "prism", "octahedron", "truncated-cube", "cuboctahedron", "cube-touching-octa", "rhombic-dodecahedron",
-            "bipyramid", "vicinal-cube", "generic-vicinal"]
+            "bipyramid", "vicinal-cube", "generic-vicinal", "repeated-facets", "near-degenerate"]
 
 
 def cases(ctx, budget):
@@ -233,7 +258,11 @@ def cases(ctx, budget):
         yield "generic", rng.choice([6, 8, 10, 14, 20, 30, 40, 60]) if k >= 8 else [6, 8, 10, 14, 20, 30, 40, 60][k], rng.randrange(1 << 30)
     reps = 2 if budget == "quick" else 8
     for fam in FAMILIES[1:]:
-        for r in range(reps if fam not in ("bipyramid", "vicinal-cube") else (3 * reps if budget == "quick" else 15 * reps)):
+        if fam == "near-degenerate":
+            yield fam, 0, 0
+            yield fam, 1, 0
+            continue
+        for r in range(reps if fam not in ("bipyramid", "vicinal-cube", "repeated-facets", "cuboctahedron") else (3 * reps if budget == "quick" else 15 * reps)):
             yield fam, rng.randint(3, 12), rng.randrange(1 << 30) * 2 + (r % 2)
 
 
@@ -293,7 +322,10 @@ def search(ctx, budget):
         r, w = judge(fam, n, seed)
         ctx.case({"family": fam, "n": n, "seed": seed}, nontrivial=nontrivial(w, None))
         if r:
-            ctx.fail(f"C19:{fam}:" + r.split(":", 1)[1][:40].strip(), r, {"family": fam, "n": n, "seed": seed})
+            key = f"C19:{fam}:" + r.split(":", 1)[1][:40].strip()
+            if fam == "near-degenerate":
+                key = "C19:near-degenerate:" + ("cuboctahedron-1.1547" if n % 2 == 0 else "corner-facet-1e-6")
+            ctx.fail(key, r, {"family": fam, "n": n, "seed": seed})
             if len(ctx.failures) >= 8:
                 break
 
